@@ -291,6 +291,36 @@ def validate(pid, trace_path, nshards, timeout=3000, env_extra=None):
     return tot, bad
 
 
+TRAIT_KINDS = {"C08": ("fieldstate", "cf"), "C12": ("fieldstate",), "C15": ("map",), "C10": ("map",), "C06": ("seq",)}
+
+
+def traits_subcheck(pid, tier, binary):
+    """the building blocks behind a property (spec/DTraits.tla): FieldState helpers (C08, C12), the Map trait of serde_json::Map
+    (C10 tag removal, C15), the Sequence trait (C06)"""
+    kinds = TRAIT_KINDS.get(pid)
+    if not kinds:
+        return None
+    r = vlib.run_tlc("MC_traits", "MC_traits.cfg", "%s-traits-mc" % pid, workers=2, timeout=600)
+    vlib.tlc_must_pass(r, "MC_traits")
+    tdir = os.path.join(vlib.WORK, "traces")
+    full = os.path.join(tdir, "%s-traits-all.ndjson" % pid)
+    vlib.run_harness(binary, ["traits", "300" if tier == "quick" else "5000"], stdout_path=full)
+    tp = os.path.join(tdir, "%s-traits.ndjson" % pid)
+    n = 0
+    with open(full) as f, open(tp, "w") as o:
+        for ln in f:
+            if any('"k":"%s"' % k in ln for k in kinds):
+                o.write(ln)
+                n += 1
+    lines, results, bad, st = helpers.validate_sharded(pid, "Trace_traits", "Trace_traits.cfg", tp, 2)
+    viols = []
+    for b in bad:
+        ev = b["events"][0]
+        path = vlib.save_replay(pid, "traits", {"property": pid, "kind": "traits", "input": ev.get("inp"), "observed": ev})
+        viols.append((path, "building block %s disagrees with DTraits: %s" % (ev.get("k"), json.dumps(ev)[:300])))
+    return {"mc_states": r.distinct, "lines": lines, "tv_states": st, "kinds": list(kinds), "violations": viols}
+
+
 def run(pid, tier, prop=None):
     """prop: the property whose violations count (default pid)"""
     prop = prop or pid
@@ -406,7 +436,13 @@ def run(pid, tier, prop=None):
     exercised = tot_all["checked"].get(prop, 0)
     if exercised == 0 and prop not in ("C12",):
         raise vlib.ToolError("vacuous run: no event exercised a guard of %s" % prop)
+    tr = traits_subcheck(pid, tier, binary)
+    if tr:
+        violations += tr["violations"]
+        states += tr["mc_states"]
+        log("[traits] %s: %d lines of %s validated against DTraits" % (pid, tr["lines"], tr["kinds"]))
     cov = {
+        "building_blocks_validated": ({"kinds": tr["kinds"], "lines": tr["lines"]} if tr else {}),
         "states": states + tot_all["states"],
         "transitions": transitions + tot_all["lines"],
         "traces_validated_against_impl": tot_all["runs"],
